@@ -1,5 +1,8 @@
 """C05 - 1014 unblocking: reads return the exact payload stream for every read sequence; validating unblocker."""
 import io
+import os
+import shutil
+import tempfile
 
 from hypothesis import strategies as st
 
@@ -39,10 +42,10 @@ BIG = blocked_input(5 * 1012 - 30)
 BIG_PAYLOAD = refvbs.payload_of(BIG)
 
 
-def do_reads(blocked, sizes):
-    """sizes: ints or None (size-less). returns None or (sig, msg)"""
+def do_reads(blocked, sizes, source=None):
+    """sizes: ints or None (size-less). returns None or (sig, msg). source: an open binary file to wrap instead of BytesIO"""
     payload = refvbs.payload_of(blocked)
-    u = mciipm.Unblock1014(io.BytesIO(blocked))
+    u = mciipm.Unblock1014(source if source is not None else io.BytesIO(blocked))
     cur = 0
     for i, n in enumerate(sizes):
         try:
@@ -117,7 +120,22 @@ def hyp_reads(ctx, n):
         res = do_reads(blocked, sizes)
         if res:
             ctx.fail(res[0], {'nbytes': nbytes, 'extra': extra, 'sizes': sizes}, res[1])
-    harness.drive(ctx, READS, body, n, salt='reads')
+        if (nbytes + len(sizes)) % 4 == 0:
+            # the same reads over a real operating-system file, buffered and unbuffered
+            path = os.path.join(scratch, 'blocked.bin')
+            with open(path, 'wb') as f:
+                f.write(blocked)
+            for buffering in (-1, 0):
+                with open(path, 'rb', buffering=buffering) as f:
+                    res = do_reads(blocked, sizes, source=f)
+                ctx.labels['real-file-reads'] += 1
+                if res:
+                    ctx.fail(res[0] + ':real-file', {'nbytes': nbytes, 'extra': extra, 'sizes': sizes, 'buffering': buffering}, res[1] + f' (real file, buffering={buffering})')
+    scratch = tempfile.mkdtemp(prefix='cardutil-verif-c05-')
+    try:
+        harness.drive(ctx, READS, body, n, salt='reads')
+    finally:
+        shutil.rmtree(scratch, ignore_errors=True)
 
 
 def records_equiv(records):
@@ -243,6 +261,17 @@ def tasks(tier, seed):
 
 
 def replay(case):
+    if 'sizes' in case and 'buffering' in case:
+        d = tempfile.mkdtemp(prefix='cardutil-verif-c05-')
+        try:
+            data = blocked_input(case['nbytes'], case.get('extra', False))
+            with open(os.path.join(d, 'b.bin'), 'wb') as f:
+                f.write(data)
+            with open(os.path.join(d, 'b.bin'), 'rb', buffering=case['buffering']) as f:
+                res = do_reads(data, list(case['sizes']), source=f)
+            return (res[0] + ':real-file', res[1]) if res else None
+        finally:
+            shutil.rmtree(d, ignore_errors=True)
     if 'sizes' in case:
         return do_reads(blocked_input(case['nbytes'], case.get('extra', False)), list(case['sizes']))
     if 'spec' in case:
